@@ -434,7 +434,9 @@ def diff(before, after):
     Return a dictionary with the difference between 'before' and 'after',
     for items which are present in 'after' dictionary
     """
-    diff = dict((k, v) for (k, v) in after.items() if before.get(k, None) != v)
+    # a key that is new in 'after' is part of the difference also when its value is None (an option without a value)
+    missing = object()
+    diff = dict((k, v) for (k, v) in after.items() if before.get(k, missing) != v)
     return diff
 
 
